@@ -442,7 +442,8 @@ MEANING = {
     "precision": {"precision", "__y@pow", "y@pow"},
     "delta": {"delta"}, "arc_tolerance": {"arc_tolerance"}, "miter_limit": {"miter_limit"},
     "jointype": {"jt_"}, "endtype": {"et_"},
-    "rect": {"rect"}, "paths": {"paths", "path"}, "path": {"path", "paths"},
+    # a list of paths is handed over as a list (AddPaths: one group, orientation decided for the whole set), a single path as a path
+    "rect": {"rect"}, "paths": {"paths"}, "path": {"path"},
     "is_closed": {"isClosed"}, "cpattern": {"pattern"}, "cpath": {"path"},
 }
 OUTPUTS = {"solution", "solution_open", "sol_tree"}
